@@ -89,6 +89,15 @@ func c16(r *Run) {
 		case 4:
 			st.Silent = true
 		}
+		if ch.Chance(1, 10, "peer.replyid") {
+			// listed under one id, answers under another (usually far from the infohash)
+			x := r.RandID()
+			st.ReplyID = &x
+			if r.Rng.Intn(2) == 0 {
+				p.Lag = delay * time.Duration(20+r.Rng.Intn(70)) / 100 // and is slow about it
+			}
+			r.Probe("responder-id-differs")
+		}
 		if ch.Chance(1, 5, "peer.values") {
 			st.Values[ih] = []string{string(core.CompactAddr(r.Addr(form))), string(core.CompactAddr(r.Addr(form)))}
 		}
@@ -120,8 +129,15 @@ func c16(r *Run) {
 			}
 		}
 	}
+	slowStart := ch.Chance(1, 3, "starting.slow")
 	for i := 0; i < 3 && i < np; i++ {
-		starting = append(starting, dht.NewAddr(pop.Peers[r.Rng.Intn(np)].Addr))
+		p := pop.Peers[r.Rng.Intn(np)]
+		starting = append(starting, dht.NewAddr(p.Addr))
+		if slowStart && i < 2 {
+			// a slow starting node (usually far from the infohash): its answer comes in
+			// after many closer nodes have answered, but before its query times out
+			p.Lag = delay * time.Duration(30+r.Rng.Intn(60)) / 100
+		}
 	}
 	r.Faults.Drop = ch.Pick([]int{4, 1, 1}, "net.drop") * 80
 	r.Faults.LongDelay = ch.Pick([]int{4, 1}, "net.long") * 60
@@ -202,6 +218,18 @@ func c16(r *Run) {
 			return
 		}
 		vs, _ := rr.List("values")
+		if _, isStr := tok.(string); isStr && tok != "" {
+			// reach probe: a token-bearing answer from a node farther than 8 token-bearing nodes heard before
+			closer := 0
+			for _, x := range resps {
+				if ts, ok := x.token.(string); ok && ts != "" && XorCmp(x.id, id, ih) < 0 {
+					closer++
+				}
+			}
+			if closer >= 8 {
+				r.Probe("late-answer-from-farther-node")
+			}
+		}
 		resps = append(resps, c16resp{addr: from.String(), id: id, token: tok, at: time.Now(), vals: len(vs), maybe: atDeadline})
 	}
 
